@@ -253,7 +253,7 @@ def dedupe_histories(hists):
 # --------------------------------------------------------------------------- random histories
 
 QOPS = ["=", "!=", "<", "<=", ">", ">="]
-IDX_FIELDS = ["A", "U", "F", "N", "T", "E", "PX", "Z", "O"]
+IDX_FIELDS = ["A", "U", "F", "N", "T", "E", "PX", "Z", "O", "Y"]
 PATTERNS = ["^a", "b$", ".", "^$", "a|z", "^A", "B"]
 
 
@@ -352,14 +352,14 @@ class RandGen:
 
 
 # custom schemas (harness: custom()): which fields get other constraints than their struct tags
-CUST_FIELDS = {1: ["A"], 2: ["U"], 3: ["V"], 4: ["F", "E"], 5: ["V", "Z"], 6: ["Z"], 7: ["R"]}
+CUST_FIELDS = {1: ["A"], 2: ["U"], 3: ["V"], 4: ["F", "E"], 5: ["V", "Z"], 6: ["Z"], 7: ["R"], 8: ["Z"]}
 
 
 def random_test(uni, rng, idx, nops=40, nslots=8, p_reopen=0.06, p_batch=0.12, p_del=0.15, cfgs=None, pal=None, fields=None,
                 case_heavy=False, p_query=0.0, abandon=False, p_bad=0.0, max_chain=2, cust=None):
     g = RandGen(uni, rng, pal=pal, fields=fields, case_heavy=case_heavy, nslots=nslots)
     # three histories in eight run under a custom schema: "any subset of fields indexed / unique"
-    cust = rng.choice([0, 0, 0, 0, 0, 0, 0, 1, 2, 3, 4, 5, 6, 6, 7, 7]) if cust is None else cust
+    cust = rng.choice([0, 0, 0, 0, 0, 0, 0, 1, 2, 3, 4, 5, 6, 6, 7, 7, 8]) if cust is None else cust
     cf = CUST_FIELDS.get(cust, [])
     g.flds = g.flds + [f for f in cf if f != "V" and f not in g.flds]
     c = rng.choice(cfgs) if cfgs else (rng.random() < 0.5, rng.random() < 0.35)
@@ -481,6 +481,17 @@ def order_test(uni, rng, idx, nobj=8, nq=8, cfgs=None):
             op["n"] = rng.choice([0, 1, 2, 3, nobj])
             op["lim"] = -1
         ops.append(op)
+        # (a failed expectation - Expects, ExpectsZeroOrN, AssignUnique - makes "any subsequent attempt to collect" fail, as documented)
+        z = rng.random() if what not in ("expects", "expectszn", "assignunique") else 1.0
+        if z < 0.3:
+            # the SAME search value collected again: Limit / Reverse are its settings and stay in force, what the first
+            # collection consumed (One, a limit) does not
+            ops.append({"op": "collect", "h": h, "rev": rng.random() < 0.3, "lim": rng.choice([-1, -1, -1, 1, 2, nobj]),
+                        "what": rng.choice(["collect", "collect", "assign", "one"])})
+        elif z < 0.5:
+            # ... or refined after it was collected: the refinement is a new value without settings of its own
+            ops.append({"op": "derive", "h": 200 + h, "from": h, "q": [g.cmp(fields=idxf, conn=rng.choice(["and", "and", "or"]))], "rev": False})
+            ops.append({"op": "collect", "h": 200 + h, "rev": False, "lim": -1, "what": "collect"})
     ops.append({"op": "obs", "qs": [g.chain(last_indexed=idxf, conns=("and",)) for _ in range(6)]})
     return {"id": "ord%d" % idx, "cfg": make_cfg(c[0], c[1], rng.randrange(len(STORAGE))), "ops": ops, "fields": ["K", "S"] + g.flds}
 
@@ -522,6 +533,11 @@ def snapshot_test(uni, rng, idx, nobj=6, cfgs=None):
                 ops.append(g.batch())
             else:
                 ops.append({"op": "delsearch", "q": g.chain(depth=1)})
+        if rng.random() < 0.2:
+            # Repair on the live handle rebuilds the index entries: what the kept value denotes does not move to other objects
+            ops.append({"op": "repair"})
+            if rng.random() < 0.5:
+                ops.append({"op": "put", "slot": g.slot(), "o": g.obj(valid_only=True)})
         if rng.random() < 0.3:
             # refined after the writes: the new value mixes two states (not judged), the kept one is still the snapshot
             ops.append({"op": "derive", "h": 200 + h, "from": h + 1, "q": [g.cmp(conn=rng.choice(["and", "or", "or"]))], "rev": rng.random() < 0.5})
@@ -633,6 +649,34 @@ def async_crash_test(uni, rng, idx, nops=4):
     return {"id": "acr%d" % idx, "cfg": make_cfg(rng.random() < 0.5, True, rng.randrange(len(STORAGE))), "ops": ops, "fields": ["K", "A"], "crash_all": True}
 
 
+def async_handover_test(uni, rng, idx):
+    """C05, asynchronous writes, directed: a unique value changes hands between two flushes (given up by one object and
+    taken by another, or two objects swapping through a third value), then the flush is crash-enumerated.  After the last
+    object file and before the commit the files are fine and the committed index is stale for SEVERAL objects at once:
+    Repair has to converge from there (intermediate points may show the known AsyncUniqueClash)."""
+    ks = rng.sample(range(6, 10), 4)
+    x, y, z, t = ks
+    a = lambda: 4 + rng.randrange(3)
+    pl = lambda: rng.randrange(uni["payloads"])
+    O = lambda k: {"K": k, "A": a(), "V": 2, "pl": pl()}
+    variant = idx % 3
+    ops = [{"op": "put", "slot": 1, "o": O(x)}]
+    if variant != 0:
+        ops.append({"op": "put", "slot": 2, "o": O(y)})
+    if idx % 2:
+        ops.append({"op": "put", "slot": 3, "o": O(t)})
+    ops.append({"op": "flush", "what": "allcommit"})
+    if variant == 0:      # 1 gives x up, a NEW object takes it
+        ops += [{"op": "put", "slot": 1, "o": O(z)}, {"op": "put", "slot": 2, "o": O(x)}]
+    elif variant == 1:    # 1 gives x up, the STORED object 2 takes it
+        ops += [{"op": "put", "slot": 1, "o": O(z)}, {"op": "put", "slot": 2, "o": O(x)}]
+    else:                 # 1 and 2 swap x and y through z
+        ops += [{"op": "put", "slot": 1, "o": O(z)}, {"op": "put", "slot": 2, "o": O(x)}, {"op": "put", "slot": 1, "o": O(y)}]
+    ops.append({"op": "flush", "what": rng.choice(["all", "all", "allcommit"])})
+    ops.append({"op": "reopen", "close": True, "create": rng.random() < 0.5})
+    return {"id": "aho%d" % idx, "cfg": make_cfg(rng.random() < 0.5, True, rng.randrange(len(STORAGE))), "ops": ops, "fields": ["K", "A"], "crash_all": True}
+
+
 def crashify(t):
     """Turn a model-generated test into a crash test (sync only)."""
     t = dict(t)
@@ -682,10 +726,59 @@ def damage_tests(uni, rng, limit=None, nslots=3):
     return out
 
 
+def damage_live_test(uni, rng, idx):
+    """C10 / C11: an asynchronous collection is damaged behind the database's back; the handle that finds the damage is
+    repaired and KEPT (no Create, no second Open); under the virtual clock its writes must still reach the disk by
+    threshold / timeout, and Close must complete them."""
+    nobj = rng.randrange(1, 4)
+    thr = rng.choice([1, 2, 3])
+    tmo = rng.choice([1, 2, 3])
+    ops = [{"op": "put", "slot": s, "o": {"K": 6 + s, "A": 4 + s % 2, "pl": s}} for s in range(1, nobj + 1)]
+    ops.append({"op": "flush", "what": "allcommit"})
+    kind = idx % 4
+    d = {"rm": [], "unindex": [], "rmschema": False, "add": [], "live": True}
+    if kind == 0:
+        d["rm"] = [1]
+    elif kind == 1:
+        d["add"] = [{"K": 12, "A": 4, "pl": 3}]
+    elif kind == 2:
+        d["unindex"] = [1]
+    # kind 3: nothing is damaged - the first load is fine, Repair has nothing to do
+    ops.append({"op": "damage", "damage": d})
+    for j in range(rng.randrange(1, 4)):
+        ops.append({"op": "put", "slot": 5 + j, "o": {"K": 14 + j, "A": 5, "pl": j}})
+        if rng.random() < 0.5:
+            ops.append({"op": "tick"})
+    for _ in range(tmo + 1):
+        ops.append({"op": "tick"})
+    ops.append({"op": "obs"})
+    ops.append({"op": "reopen", "close": True, "create": rng.random() < 0.5})
+    ops.append({"op": "obs"})
+    return {"id": "dl%d" % idx, "cfg": make_cfg(rng.random() < 0.5, True, rng.randrange(len(STORAGE)), thr=thr, tmo_ms=tmo * 100), "ops": ops, "fields": ["K", "A"], "vclock": True}
+
+
 def fault_tests(uni, rng, n, kmax=16):
     """A short history, then one call with a single storage fault at its k-th file-system call."""
     out = []
     idx = 0
+    # directed part: two stored objects, then every kind of call - in particular batches mixing updates of stored objects
+    # and new objects in both orders - with the fault at each of its file-system calls
+    O = lambda k, a: {"K": k, "A": a, "V": 2, "pl": rng.randrange(uni["payloads"])}
+    pre0 = [{"op": "put", "slot": 1, "o": O(6, 4)}, {"op": "put", "slot": 2, "o": O(7, 5)}]
+    B = lambda *items: {"op": "many", "batch": [{"slot": s, "o": o} for s, o in items], "csize": 0}
+    targets = [B((1, O(6, 6)), (3, O(8, 4))), B((3, O(8, 4)), (1, O(6, 6))), B((1, O(9, 6)), (2, O(7, 4))), B((3, O(8, 4)), (4, O(9, 5))),
+               B((1, O(6, 6)), (2, O(7, 6)), (3, O(8, 4))),
+               {"op": "put", "slot": 1, "o": O(9, 6)}, {"op": "put", "slot": 3, "o": O(8, 4)}, {"op": "del", "slot": 1}, {"op": "delall"},
+               {"op": "delsearch", "q": [{"f": "A", "op": ">=", "p": 4}]}]
+    for ti, target in enumerate(targets):
+        cfg = make_cfg(ti % 2 == 1, False, rng.randrange(8))
+        for k in range(1, (30 if target["op"] == "many" else 18) + 1):
+            for sub in ("", "write"):
+                t = dict(target)
+                t["fault"], t["fsub"] = k, sub
+                out.append({"id": "ftd%d" % idx, "cfg": cfg, "ops": pre0 + [t], "fields": ["K", "A"], "noobs": False})
+                idx += 1
+    n += len(out)        # the directed part is always complete; n random ones follow
     while len(out) < n:
         pre = small_history(uni, rng, nops=rng.randrange(0, 4))
         target = small_history(uni, rng, nops=1, valid_only=True)[0]
